@@ -7,6 +7,9 @@ pub const IDL_VERIF: &str = include_str!("../../vl-tsvc/idl/org.verif.varlink");
 pub const IDL_TEST_2: &str = include_str!("../../vl-tsvc/idl/org.verif.test-2.varlink");
 pub const IDL_TEST_UPPER: &str = include_str!("../../vl-tsvc/idl/org.verif.Test.varlink");
 
+/// what the T-service's upgraded handler sends unasked when the upgrade request's token starts with "greet"
+pub const GREETING: &[u8] = b"HELLO FROM THE SERVICE\0 (no line end)";
+
 pub const VENDOR: &str = "org.verif";
 pub const PRODUCT: &str = "verif \"T\" service";
 pub const VERSION: &str = "0.1-\u{00e9}";
